@@ -7,9 +7,9 @@ export GOFLAGS=-mod=mod GOPROXY=off GOSUMDB=off GOTOOLCHAIN=local; unset GOWORK
 wt=$(/verif/tools/mk_scratch.sh confirm 2>/dev/null | tail -1)
 cd $wt || exit 2
 mkdir -p $dest; cp -r $sd/demo/* $dest/
-echo "== demo WITHOUT patch"; go test -count=1 -run "$re" $pkg 2>&1 | grep -v '^\[20' | tail -4
+echo "== demo WITHOUT patch"; go test $SEED_TESTFLAGS -count=1 -run "$re" $pkg 2>&1 | grep -v '^\[20' | tail -4
 (git apply $sd/patch.diff 2>/dev/null || git apply --3way $sd/patch.diff) || { echo "patch does not apply on HEAD"; exit 3; }; git reset -q
 echo "== build WITH patch"; go build . ./socket ./codec/... ./utils/... ./xfer/... ./proto/... ./plugin/... ./mixer/websocket/... && echo build-ok
 echo "== pinned tests WITH patch"; go test -count=1 ./codec ./mixer/websocket/websocket ./socket ./utils ./xfer/gzip 2>&1 | tail -5
-echo "== demo WITH patch"; go test -count=1 -run "$re" $pkg 2>&1 | grep -v '^\[20' | tail -6
+echo "== demo WITH patch"; go test $SEED_TESTFLAGS -count=1 -run "$re" $pkg 2>&1 | grep -v '^\[20' | tail -6
 cd /; git -C /repo worktree remove --force $wt
